@@ -14,7 +14,7 @@ from concurrent.futures import ThreadPoolExecutor
 from pathlib import Path
 
 from harness.common import ROCQ, Ck, _split_evals, _unlimit_stack, coq_list, coq_str, parse_coq_N_list
-from translate import c18_guard
+from translate import c18_guard, c18_ops
 
 MANIFEST = dict(
     technique='Rocq proof (POSIX join/normpath/abspath on character lists; soundness of every segment-wise guard form by '
@@ -38,7 +38,7 @@ MANIFEST = dict(
          'speaks about the root directory). unify_path("..") == ".." is an observation, carved out of the theorem.',
 )
 
-IMPORTS = ['SV.SM.PathNorm', 'SV.SM.PathNormEnum', 'SV.Gen.Containment_gen', 'SV.Props.C18', 'Coq.NArith.NArith',
+IMPORTS = ['SV.SM.PathNorm', 'SV.SM.PathNormEnum', 'SV.SM.PathOps', 'SV.Gen.Containment_gen', 'SV.Gen.FsOps_gen', 'SV.Props.C18', 'Coq.NArith.NArith',
            'Coq.Lists.List']
 PRE = 'Import ListNotations.\n'
 CWD = '/w/cwd'
@@ -693,6 +693,7 @@ def run(ck: Ck) -> None:
     ck.assumptions.append('the working directory is absolute (hypothesis is_abs cwd of the theorems); os.getcwd() always is')
     assert os.sep == '/'
     ok_t = ck.translate('Containment_gen', c18_guard.translate)
+    ok_t = ck.translate('FsOps_gen', c18_ops.translate) and ok_t
     side = ck.extra.get('translated', {}).get('Containment_gen', {})
     built = ok_t and ck.build(['Props/C18.vo', 'SM/PathNormEnum.vo'])
     if built:
@@ -702,7 +703,18 @@ def run(ck: Ck) -> None:
             'root_is_stored_as_abspath': 'root_is_abspath',
             'root_not_reassigned_by_the_class': 'negb root_reassigned_in_class',
             'every_fs_access_goes_through_resolve_path': 'all_access_sites_resolved',
+            # data flow of every OS call (Gen/FsOps_gen.v): hypotheses of c18_every_access_inside / c18_chain_accesses_inside
+            'every_os_call_receives_a_resolve_path_result': 'every_os_call_receives_a_resolve_result',
+            'file_handle_consumers_revalidate_the_stored_string': 'handle_consumers_revalidate_stored_string',
+            'chain_and_file_classes_touch_no_file_system_themselves': 'chain_and_file_classes_touch_no_file_system',
         })
+        ops_side = ck.extra.get('translated', {}).get('FsOps_gen', {})
+        for m, c, b, p, _ in ops_side.get('raw_sites', []):
+            ck.hist('os_call_site', f'{m}:{c}:{b}:{p}')
+        info = ck.coq_eval(IMPORTS, ['handles_store_the_validated_string', 'length (handle_sites raw_sites)'], name='opsinfo')
+        if info is not None:
+            ck.extra['handles_store_the_validated_string(informational)'] = info[0]
+            ck.extra['handle_consuming_sites'] = info[1]
         if not res['guard_is_a_sound_segmentwise_form']:
             model_predicted_escapes(ck)
         if side.get('resolve_digest') not in PINNED_DIGESTS:
@@ -719,6 +731,10 @@ def run(ck: Ck) -> None:
     if any(k.startswith(('escape-', 'handle-escape-')) for k in keys):
         ck.explain('instance:guard_is_a_sound_segmentwise_form')
         ck.explain('instance:every_fs_access_goes_through_resolve_path')
+        ck.explain('instance:every_os_call_receives_a_resolve_path_result')
+        ck.explain('instance:file_handle_consumers_revalidate_the_stored_string')
+        ck.explain('instance:chain_and_file_classes_touch_no_file_system_themselves')
+        ck.explain('translate:FsOps_gen')
         ck.explain('instance:root_')
         ck.explain('translate:Containment_gen')
     # A model/implementation disagreement is explained only when every disagreeing function belongs to the part whose
